@@ -134,10 +134,39 @@ impl<'a> TryFrom<&'a str> for &'a DataUrl {
 }
 
 /// Owned data URL.
-#[derive(Debug, Clone, PartialEq, Eq, PartialOrd, Ord, Hash)]
+#[derive(Debug, Clone)]
 pub struct DataUrlBuf {
 	url: UriBuf,
 	delimiters: DataUrlDelimiters,
+}
+
+// `DataUrlBuf` borrows as `DataUrl`: it must compare, order and hash as
+// `DataUrl` does (by its URL). The delimiters are a cache computed from the
+// URL and take no part in it.
+impl PartialEq for DataUrlBuf {
+	fn eq(&self, other: &Self) -> bool {
+		self.as_data_url() == other.as_data_url()
+	}
+}
+
+impl Eq for DataUrlBuf {}
+
+impl PartialOrd for DataUrlBuf {
+	fn partial_cmp(&self, other: &Self) -> Option<std::cmp::Ordering> {
+		Some(self.cmp(other))
+	}
+}
+
+impl Ord for DataUrlBuf {
+	fn cmp(&self, other: &Self) -> std::cmp::Ordering {
+		self.as_data_url().cmp(other.as_data_url())
+	}
+}
+
+impl std::hash::Hash for DataUrlBuf {
+	fn hash<H: std::hash::Hasher>(&self, state: &mut H) {
+		self.as_data_url().hash(state)
+	}
 }
 
 impl DataUrlBuf {
